@@ -103,9 +103,10 @@ end V3
 
 /-! ### the rarefaction fans next to vacuum -/
 
-/-- left fan: `base`, then `rhosol`, `usol`, `Psol` (lines 627-630, 751-754) -/
+/-- left fan: `base = std::max(0., …)` (clamp added by fix 52f78a3), then `rhosol`, `usol`, `Psol`
+(lines 627-630, 752-756) -/
 def leftFan (G rhoL uL PL aL dxdt : α) (tag : Nat) : Sample α :=
-  let base := tdgp1 G + gm1dgp1 G * (uL - dxdt) / aL
+  let base := amax 0.0 (tdgp1 G + gm1dgp1 G * (uL - dxdt) / aL)
   let rhosol := rhoL * ArithFns.pow base (tdgm1 G)
   let usol := tdgp1 G * (aL + gm1d2 G * uL + dxdt)
   let Psol := PL * ArithFns.pow base (tgdgm1 G)
@@ -113,7 +114,7 @@ def leftFan (G rhoL uL PL aL dxdt : α) (tag : Nat) : Sample α :=
 
 /-- right fan (lines 674-677, 735-738) -/
 def rightFan (G rhoR uR PR aR dxdt : α) (tag : Nat) : Sample α :=
-  let base := tdgp1 G - gm1dgp1 G * (uR - dxdt) / aR
+  let base := amax 0.0 (tdgp1 G - gm1dgp1 G * (uR - dxdt) / aR)
   let rhosol := rhoR * ArithFns.pow base (tdgm1 G)
   let usol := tdgp1 G * (-aR + gm1d2 G * uR + dxdt)
   let Psol := PR * ArithFns.pow base (tgdgm1 G)
